@@ -1,19 +1,19 @@
 SPECIFICATION Spec
 CONSTANTS
- Loops <- L2
- Callers <- C4
- LoopOf <- LoopOf_2x2
+ Loops <- L3
+ Callers <- C3
+ LoopOf <- LoopOf_3x1
  MaxInv = 5
  MaxRetry = 2
  OwnMarkerOnly = TRUE
  ForeignCancelRetry = TRUE
- LifeCycles = TRUE
- Cancels = FALSE
- Failures = FALSE
+ LifeCycles = FALSE
+ Cancels = TRUE
+ Failures = TRUE
  Timeouts = TRUE
- Evictions = FALSE
+ Evictions = TRUE
 CONSTRAINT Bound
-INVARIANT Inv_C01
 INVARIANT Inv_C06
+INVARIANT SingleFlightEvenIfEvicting
 INVARIANT LockDiscipline
 INVARIANT MarkerOwner
